@@ -50,7 +50,11 @@ __CPROVER_ensures(g.out_set == 1 && g.out_state == r->state && g.out_tag == r->t
 
 def pre_rules():
     return [
+        # Result::operator bool in every boolean context (a bare pointer would be "always true" in C: guarded by units.when.check_bool)
         (r'if\s*\(\s*result\s*\)', 'if (RES_OK(result))', 0),
+        (r'(&&|\|\|)\s*result\b(?!\s*[.\-(])', r'\1 RES_OK(result)', 0),
+        (r'(?<![\w.>])result\s*(&&|\|\|)', r'RES_OK(result) \1', 0),
+        (r'!\s*result\b(?!\s*[.\-(])', '!RES_OK(result)', 0),
         (r'result\.State\(\)\s*(==|!=)\s*ResultState::(\w+)', r'RES_STATE(result) \1 RS_\2', 0),
         (r'std::move\(_p\)\.Set\(\s*std::forward<Result>\(result\)\.(\w+)\(\)\s*\)\s*;', r'P_Set(self, RS_\1, result);', 0),
         (r'error\s*=\s*std::forward<Result>\(result\)\.(\w+)\(\)\s*;', r'ERR_SAVE(self, RS_\1, result);', 0),
@@ -105,6 +109,8 @@ static inline void rg_write(RG_WORD* p, RG_WORD o, RG_WORD n, int mo, int kind) 
 #include "rg_atomic.h"
 '''
     c = Rewriter('Any<None>::Consume', atomics=['_done'], pre=pre_rules()).rewrite(b_none.text)
+    from units.when import check_bool
+    c = check_bool('Any<None>::Consume', c)
     contract = '''void Consume(Any* self, Res* result)
 %s
 __CPROVER_requires(INV(self->_done) && !g.elected_me)
@@ -157,6 +163,8 @@ static inline void rg_write(RG_WORD* p, RG_WORD o, RG_WORD n, int mo, int kind) 
 #include "rg_atomic.h"
 '''
     c = Rewriter('Any<LastFail>::Consume', atomics=['_state'], pre=pre_rules()).rewrite(b_lf.text)
+    from units.when import check_bool
+    c = check_bool('Any<LastFail>::Consume', c)
     cd = Rewriter('DoneImpl', pre=pre_rules()).rewrite(b_done.text)
     contract = '''int DoneImpl(unsigned long value)
 __CPROVER_assigns()
@@ -226,6 +234,8 @@ __CPROVER_assigns(g.err_saved, g.err_state, g.err_tag)
 __CPROVER_ensures(g.err_saved == 1 && g.err_state == r->state && g.err_tag == r->tag);
 '''
     c = Rewriter('Any<FirstFail>::Consume', atomics=['_state'], pre=pre_rules()).rewrite(b_ff.text)
+    from units.when import check_bool
+    c = check_bool('Any<FirstFail>::Consume', c)
     contract = '''void Consume(Any* self, Res* result)
 %s
 __CPROVER_requires(INV(self->_state) && !g.elected_me && !g.i_save && !g.other_saves && g.my_state == result->state && g.my_tag == result->tag)
